@@ -509,6 +509,7 @@ func checkC04(p *Program, r *Report) {
 	}
 	r.Floor("R04.1", "vectorised wrappers", n, 41)
 	checkNoAppendOnShared(p, r, models)
+	checkInitStatesWidth(p, r, models)
 	// R04.7: Run touches nothing else — no package-level writes from anything a Run reaches
 	{
 		r.Rule("R04.7", "Run touches nothing else: no function reachable from any wrapper's Run writes a package-level variable (cells would read each other's intermediate values)")
